@@ -50,7 +50,7 @@ def _fs(x):
 
 def _scripted_case(case):
     """explorer part: the state is a scripted refinement history; EVERY split of it into a first run (k steps) and a continuation
-    (both documented ways) must end where the uninterrupted history ends"""
+    (both documented ways, and through save_to_file/restore_from_file) must end where the uninterrupted history ends"""
     c, hist = case["config"], case["history"]
     strat = c["scripted"]
     mod, kw = (dw, {}) if strat == "dw" else (es, {"strategy": strat})
@@ -64,7 +64,7 @@ def _scripted_case(case):
     fails = []
     key = {"strategy": strat, "kind": "scripted_history"}
     for k in range(len(hist) + 1):
-        for how in ("continue", "container"):
+        for how in ("continue", "container", "save_restore"):
             X = mod.build(c, hist, _fs, 3, resume=(k, how), **kw)
             kk = dict(key, variant=how)
             if strat == "es" and how == "container" and c.get("version") == 2 and any(e[2] == "E" or (e[2] is None) for st in hist[:k] for e in st):
@@ -72,7 +72,7 @@ def _scripted_case(case):
                 kk["version2_reevaluation_after_extend"] = True
             _compare(u, fin(X), "history of %d steps, stopped after %d, %s" % (len(hist), k, how), kk, fails)
     out = {"failures": fails, "canon": (strat, u["structure"], u["lmax"]), "outcome": (len(hist), not fails),
-           "nontrivial": len(hist) >= 2, "evals": 1 + 2 * (len(hist) + 1)}
+           "nontrivial": len(hist) >= 2, "evals": 1 + 3 * (len(hist) + 1)}
     if case.get("want_events"):
         if strat == "dw":
             out["events"] = dw.events_for(U.sa, c)
@@ -181,6 +181,6 @@ def main(ctx):
              "run (max_evaluations = n_k - 1), then continued / saved+restored+continued; ALL evaluation indices k of every "
              "uninterrupted run are enumerated; non-trivial = interruption strictly inside the run.  Explorer part: BFS over scripted "
              "refinement histories (dimension-wise, extend-split, cell); in every reached state the history is re-run with EVERY split "
-             "point k = 0..len and both documented continuations and must end in the same structure/result",
+             "point k = 0..len, both documented continuations and save->restore->continue the copy, and must end in the same structure/result",
         assumptions=["d=2, real estimators and integrands of the C13 menu; save/restore through the library's dill persistence into the "
                      "scratch directory", "results compared to 1e-12 relative, structures/schemes/point counts exactly"])
